@@ -1038,6 +1038,8 @@ class Transaction(object):
                 inputs[n].script = script if not inputs[n].script else inputs[n].script + script
                 inputs[n].keys = script.keys
                 inputs[n].signatures = script.signatures
+                if inputs[n].signatures and inputs[n].signatures[0].hash_type:
+                    inputs[n].hash_type = inputs[n].signatures[0].hash_type
                 if not script.script_types:
                     inputs[n].script_type = 'unknown'
                 elif script.script_types[0][:13] == 'p2sh_multisig' or script.script_types[0] =='signature_multisig':
@@ -1618,7 +1620,7 @@ class Transaction(object):
                 outputs_serialized += int(o.value).to_bytes(8, 'little')
                 outputs_serialized += varstr(o.lock_script)
             hash_outputs = double_sha256(outputs_serialized)
-        elif (hash_type & 0x1f) != SIGHASH_SINGLE and sign_id < len(self.outputs):
+        elif (hash_type & 0x1f) == SIGHASH_SINGLE and sign_id < len(self.outputs):
             outputs_serialized += int(self.outputs[sign_id].value).to_bytes(8, 'little')
             outputs_serialized += varstr(self.outputs[sign_id].lock_script)
             hash_outputs = double_sha256(outputs_serialized)
